@@ -31,8 +31,8 @@ Lemma sumf_affine {A} (a b : A -> Q) d L : sumf (fun g => qadd (a g) (qmul d (b 
 Proof. induction L as [|x L IH]; [rewrite !sumf_nil; ring|]. rewrite !sumf_cons, IH. qnorm. ring. Qed.
 
 (* ------------------------------------------------------------------ _update_p / _split_p_for_gens_at_same_bus *)
-Lemma gen_p_noslack n ref k sinj : (memn k ref && has_gen n k) = false ->
-  gen_p n ref k sinj == sumf g_pg (gens_on_at n k).
+Lemma gen_p_noslack n ref k v sinj : (memn k ref && has_gen n k) = false ->
+  gen_p n ref k v sinj == sumf g_pg (gens_on_at n k).
 Proof.
   intros H. apply andb_false_iff in H. destruct H as [H|H].
   - unfold gen_p. apply sumf_ext. intros g Hg. apply gens_on_at_In in Hg. destruct Hg as [Hb Ho].
@@ -47,8 +47,8 @@ Proof.
 Qed.
 
 (* the generator rows at a reference bus sum to  inj P + local Pd *)
-Lemma gen_p_sum n ref k sinj : memn k ref = true -> split_ok n k = true ->
-  gen_p n ref k sinj == p_bus n k sinj.
+Lemma gen_p_sum n ref k v sinj : memn k ref = true -> split_ok n k = true ->
+  gen_p n ref k v sinj == p_bus n k v sinj.
 Proof.
   intros Hr Hs. unfold gen_p, split_ok in *.
   set (G := gens_on_at n k) in *.
@@ -63,14 +63,14 @@ Proof.
     set (ext := filter g_ref G). set (pv := filter (fun x => negb (g_ref x)) G).
     assert (Hext : (0 < length ext)%nat) by (apply existsb_filter_nonempty; exact Hex).
     (* pv part keeps its setpoints *)
-    assert (Epv : sumf (fun g => pg_after n ref g sinj) pv == sumf g_pg pv).
+    assert (Epv : sumf (fun g => pg_after n ref g v sinj) pv == sumf g_pg pv).
     { apply sumf_ext. intros g Hg. apply filter_In in Hg. destruct Hg as [Hg Hn].
       destruct (HG g Hg) as [Hb Ho]. apply negb_true_iff in Hn.
       unfold pg_after. rewrite Hb, Ho, Hr. fold G. rewrite Hlen, Hn. reflexivity. }
     rewrite Epv.
-    set (p_ext := qsub (p_bus n k sinj) (sumf g_pg pv)).
+    set (p_ext := qsub (p_bus n k v sinj) (sumf g_pg pv)).
     destruct (qltb 0 (sumf g_w ext)) eqn:W.
-    + assert (Eext : sumf (fun g => pg_after n ref g sinj) ext ==
+    + assert (Eext : sumf (fun g => pg_after n ref g v sinj) ext ==
                      sumf (fun g => qadd (g_pg g) (qmul (qdiv (qsub p_ext (sumf g_pg ext)) (sumf g_w ext)) (g_w g))) ext).
       { apply sumf_ext. intros g Hg. apply filter_In in Hg. destruct Hg as [Hg Hn].
         destruct (HG g Hg) as [Hb Ho].
@@ -78,7 +78,7 @@ Proof.
         apply qltb_lt in W. qnorm. field. intros E0. rewrite E0 in W. apply (Qlt_irrefl 0 W). }
       rewrite Eext, sumf_affine. apply qltb_lt in W. unfold p_ext. qnorm. field.
       intros E0. rewrite E0 in W. apply (Qlt_irrefl 0 W).
-    + assert (Eext : sumf (fun g => pg_after n ref g sinj) ext == sumf (fun _ => qdiv p_ext (nq (length ext))) ext).
+    + assert (Eext : sumf (fun g => pg_after n ref g v sinj) ext == sumf (fun _ => qdiv p_ext (nq (length ext))) ext).
       { apply sumf_ext. intros g Hg. apply filter_In in Hg. destruct Hg as [Hg Hn].
         destruct (HG g Hg) as [Hb Ho].
         unfold pg_after. rewrite Hb, Ho, Hr. fold G. rewrite Hlen, Hn. fold ext pv p_ext. rewrite W. cbn [andb]. reflexivity. }
@@ -86,9 +86,9 @@ Proof.
 Qed.
 
 (* non-reference buses and non-reference gens keep their active power setpoint *)
-Lemma pg_after_keeps n ref g sinj :
+Lemma pg_after_keeps n ref g v sinj :
   memn (g_bus g) ref = false \/ (g_ref g = false /\ (1 < length (gens_on_at n (g_bus g)))%nat) ->
-  pg_after n ref g sinj = g_pg g.
+  pg_after n ref g v sinj = g_pg g.
 Proof.
   intros [H|[H1 H2]]; unfold pg_after.
   - rewrite H, andb_false_r. reflexivity.
@@ -96,8 +96,8 @@ Proof.
 Qed.
 
 (* ------------------------------------------------------------------ _update_q *)
-Definition qg_expr (n : net) (k : nat) (g : gen) (sinj : C) : Q :=
-  let q0 := q_tot0 n k sinj in
+Definition qg_expr (n : net) (k : nat) (g : gen) (v : Q) (sinj : C) : Q :=
+  let q0 := q_tot0 n k v sinj in
   if Nat.ltb 1 (n_on n) then
     let G := gens_on_at n k in
     let q1 := qdiv q0 (nq (length G)) in
@@ -107,17 +107,17 @@ Definition qg_expr (n : net) (k : nat) (g : gen) (sinj : C) : Q :=
     if qeqb qmin qmax then q1
     else qadd (g_qmin g) (qmul (qdiv (qsub qtot qmin) (qadd (qsub qmax qmin) EPS)) (qsub (g_qmax g) (g_qmin g)))
   else q0.
-Lemma qg_after_val_at n k g sinj : In g (gens_on_at n k) -> qg_after_val n g sinj = qg_expr n k g sinj.
+Lemma qg_after_val_at n k g v sinj : In g (gens_on_at n k) -> qg_after_val n g v sinj = qg_expr n k g v sinj.
 Proof. intros H. apply gens_on_at_In in H. destruct H as [Hb Ho]. unfold qg_after_val, qg_expr. rewrite Ho, Hb. reflexivity. Qed.
 
-Lemma gen_q_sum n k sinj : has_gen n k = true -> ~ qg_den n k == 0 ->
-  gen_q n k sinj == q_tot0 n k sinj - qsplit_loss n k sinj.
+Lemma gen_q_sum n k v sinj : has_gen n k = true -> ~ qg_den n k == 0 ->
+  gen_q n k v sinj == q_tot0 n k v sinj - qsplit_loss n k v sinj.
 Proof.
   intros Hg Hden. unfold gen_q.
-  rewrite (sumf_ext _ (fun g => qg_expr n k g sinj)); [|intros g Hin; rewrite (qg_after_val_at n k g sinj Hin); reflexivity].
+  rewrite (sumf_ext _ (fun g => qg_expr n k g v sinj)); [|intros g Hin; rewrite (qg_after_val_at n k g v sinj Hin); reflexivity].
   pose proof (has_gen_true _ _ Hg) as Hlen. pose proof (gens_on_at_le_n_on n k) as Hle.
   unfold qg_expr, qsplit_loss, qg_den in *.
-  set (G := gens_on_at n k) in *. set (q0 := q_tot0 n k sinj).
+  set (G := gens_on_at n k) in *. set (q0 := q_tot0 n k v sinj).
   destruct (Nat.ltb 1 (n_on n)) eqn:N; cbn [andb].
   - destruct (qeqb (sumf g_qmin G) (sumf g_qmax G)) eqn:E; cbn [negb].
     + rewrite sumf_const. qnorm. field. apply nq_nonzero. exact Hlen.
@@ -130,14 +130,14 @@ Proof.
 Qed.
 
 (* the EPS in the denominator loses at most |Qtot - Qmin| * EPS / range *)
-Lemma qsplit_loss_bound n k sinj :
+Lemma qsplit_loss_bound n k v sinj :
   0 < sumf g_qmax (gens_on_at n k) - sumf g_qmin (gens_on_at n k) ->
-  Qabs (qsplit_loss n k sinj) <=
-  Qabs (q_tot0 n k sinj - sumf g_qmin (gens_on_at n k)) * EPS / (sumf g_qmax (gens_on_at n k) - sumf g_qmin (gens_on_at n k)).
+  Qabs (qsplit_loss n k v sinj) <=
+  Qabs (q_tot0 n k v sinj - sumf g_qmin (gens_on_at n k)) * EPS / (sumf g_qmax (gens_on_at n k) - sumf g_qmin (gens_on_at n k)).
 Proof.
   intros HR. unfold qsplit_loss.
   set (G := gens_on_at n k) in *. set (R := sumf g_qmax G - sumf g_qmin G) in *.
-  set (d := q_tot0 n k sinj - sumf g_qmin G).
+  set (d := q_tot0 n k v sinj - sumf g_qmin G).
   assert (HE : 0 < EPS) by reflexivity.
   assert (Hpos : 0 <= Qabs d * EPS / R).
   { apply Qle_shift_div_l; [exact HR|]. rewrite Qmult_0_l. apply Qmult_le_0_compat; [apply Qabs_nonneg | apply Qlt_le_weak; exact HE]. }
@@ -158,9 +158,9 @@ Qed.
 
 (* ------------------------------------------------------------------ the imbalance formulas *)
 (* small unfolding lemmas (keep the autorewrite goals small) *)
-Lemma resid_p_eq n ref k v s f : resid_p n ref k v s f == cons_p n k v - gen_p n ref k s + re f.
+Lemma resid_p_eq n ref k v s f : resid_p n ref k v s f == cons_p n k v - gen_p n ref k v s + re f.
 Proof. unfold resid_p. rewrite qadd_correct, qsub_correct. reflexivity. Qed.
-Lemma resid_q_eq n k v s f : resid_q n k v s f == cons_q n k v - gen_q n k s + im f.
+Lemma resid_q_eq n k v s f : resid_q n k v s f == cons_q n k v - gen_q n k v s + im f.
 Proof. unfold resid_q. rewrite qadd_correct, qsub_correct. reflexivity. Qed.
 Lemma flows_re n k v s : re (flows n k v s) == re s * base n - v * v * GS n k.
 Proof. unfold flows. cbn [re]. rewrite qsub_correct, !qmul_correct. reflexivity. Qed.
@@ -196,9 +196,9 @@ Proof.
   unfold gendef_q. destruct (vdl n); cbn [negb]; [|reflexivity].
   rewrite qadd_correct, !qmul_correct, !qsub_correct, ?qmul_correct. reflexivity.
 Qed.
-Lemma p_bus_eq n k s : p_bus n k s == re s * base n + PD n k.
+Lemma p_bus_eq n k v s : p_bus n k v s == re s * base n + re (Sload n k v).
 Proof. unfold p_bus. rewrite qadd_correct, qmul_correct. reflexivity. Qed.
-Lemma q_tot0_eq n k s : q_tot0 n k s == im s * base n + QD n k.
+Lemma q_tot0_eq n k v s : q_tot0 n k v s == im s * base n + im (Sload n k v).
 Proof. unfold q_tot0. rewrite qadd_correct, qmul_correct. reflexivity. Qed.
 
 (* P at a bus whose generators are not assigned the slack power (PQ and PV buses) *)
@@ -206,7 +206,7 @@ Lemma imbalance_p n ref k v sinj : (memn k ref && has_gen n k) = false ->
   resid_p n ref k v sinj (flows n k v sinj) == mism_p n k v sinj - zipdef_p n k v.
 Proof.
   intros H. rewrite resid_p_eq, flows_re, mism_p_eq, zipdef_p_eq.
-  rewrite (gen_p_noslack _ _ _ _ H), cons_p_closed, Sload_re.
+  rewrite (gen_p_noslack _ _ _ _ _ H), cons_p_closed, Sload_re.
   destruct (vdl n); ring.
 Qed.
 (* Q at a bus without a generator in service (PQ bus) *)
@@ -218,20 +218,31 @@ Proof.
   rewrite cons_q_closed, Sload_im.
   destruct (vdl n); ring.
 Qed.
-(* P at a reference bus: the generators get  inj P + the *static* PD *)
+(* P at a reference bus: the generators get  inj P + the demand the solver used *)
 Lemma imbalance_ref_p n ref k v sinj : memn k ref = true -> split_ok n k = true ->
-  resid_p n ref k v sinj (flows n k v sinj) == gendef_p n k v.
+  resid_p n ref k v sinj (flows n k v sinj) == - zipdef_p n k v.
 Proof.
-  intros Hr Hs. rewrite resid_p_eq, flows_re, gendef_p_eq.
-  rewrite (gen_p_sum _ _ _ _ Hr Hs), cons_p_closed, p_bus_eq.
+  intros Hr Hs. rewrite resid_p_eq, flows_re, zipdef_p_eq.
+  rewrite (gen_p_sum _ _ _ _ _ Hr Hs), cons_p_closed, p_bus_eq, Sload_re.
   destruct (vdl n); ring.
 Qed.
-(* Q at a generator bus: the generators get  inj Q + the *static* QD, minus the EPS loss of the split *)
-Lemma imbalance_gen_q n k v sinj : has_gen n k = true -> ~ qg_den n k == 0 ->
-  resid_q n k v sinj (flows n k v sinj) == gendef_q n k v + qsplit_loss n k sinj.
+(* the rule before the repair (static PD): imbalance (v-1) sum p_i ci_i + (v^2-1) sum p_i cz_i *)
+Lemma old_ref_p n k v sinj : resid_p_ref_old n k v sinj == gendef_p n k v.
 Proof.
-  intros Hg Hd. rewrite resid_q_eq, flows_im, gendef_q_eq.
-  rewrite (gen_q_sum _ _ _ Hg Hd), cons_q_closed, q_tot0_eq.
+  unfold resid_p_ref_old, p_bus_old. rewrite qadd_correct, qsub_correct, qadd_correct, qmul_correct, flows_re, gendef_p_eq, cons_p_closed.
+  destruct (vdl n); ring.
+Qed.
+Lemma old_gen_q n k v sinj : resid_q_gen_old n k v sinj == gendef_q n k v.
+Proof.
+  unfold resid_q_gen_old, q_tot0_old. rewrite qadd_correct, qsub_correct, qadd_correct, qmul_correct, flows_im, gendef_q_eq, cons_q_closed.
+  destruct (vdl n); ring.
+Qed.
+(* Q at a generator bus: the generators get  inj Q + the demand the solver used, minus the EPS loss of the split *)
+Lemma imbalance_gen_q n k v sinj : has_gen n k = true -> ~ qg_den n k == 0 ->
+  resid_q n k v sinj (flows n k v sinj) == - zipdef_q n k v + qsplit_loss n k v sinj.
+Proof.
+  intros Hg Hd. rewrite resid_q_eq, flows_im, zipdef_q_eq.
+  rewrite (gen_q_sum _ _ _ _ Hg Hd), cons_q_closed, q_tot0_eq, Sload_im.
   destruct (vdl n); ring.
 Qed.
 
@@ -329,24 +340,24 @@ Proof.
   - rewrite (imbalance_q _ _ _ _ Hg), M2, (G01q_zipdef _ _ _ G2). ring.
 Qed.
 Lemma balance_partial_pv n ref k v sinj :
-  memn k ref = false -> has_gen n k = true -> ~ qg_den n k == 0 -> G01p n k = true -> G01gq n k = true ->
+  memn k ref = false -> has_gen n k = true -> ~ qg_den n k == 0 -> G01p n k = true -> G01q n k = true ->
   mism_p n k v sinj == 0 ->
   resid_p n ref k v sinj (flows n k v sinj) == 0 /\
-  resid_q n k v sinj (flows n k v sinj) == qsplit_loss n k sinj.
+  resid_q n k v sinj (flows n k v sinj) == qsplit_loss n k v sinj.
 Proof.
   intros Hr Hg Hd G1 G2 M1. split.
   - rewrite imbalance_p by (rewrite Hr; reflexivity). rewrite M1, (G01p_zipdef _ _ _ G1). ring.
-  - rewrite (imbalance_gen_q _ _ _ _ Hg Hd), (G01gq_gendef _ _ _ G2). ring.
+  - rewrite (imbalance_gen_q _ _ _ _ Hg Hd), (G01q_zipdef _ _ _ G2). ring.
 Qed.
 Lemma balance_partial_ref n ref k v sinj :
   memn k ref = true -> split_ok n k = true -> has_gen n k = true -> ~ qg_den n k == 0 ->
-  G01gp n k = true -> G01gq n k = true ->
+  G01p n k = true -> G01q n k = true ->
   resid_p n ref k v sinj (flows n k v sinj) == 0 /\
-  resid_q n k v sinj (flows n k v sinj) == qsplit_loss n k sinj.
+  resid_q n k v sinj (flows n k v sinj) == qsplit_loss n k v sinj.
 Proof.
   intros Hr Hs Hg Hd G1 G2. split.
-  - rewrite (imbalance_ref_p _ _ _ _ _ Hr Hs), (G01gp_gendef _ _ _ G1). reflexivity.
-  - rewrite (imbalance_gen_q _ _ _ _ Hg Hd), (G01gq_gendef _ _ _ G2). ring.
+  - rewrite (imbalance_ref_p _ _ _ _ _ Hr Hs), (G01p_zipdef _ _ _ G1). ring.
+  - rewrite (imbalance_gen_q _ _ _ _ Hg Hd), (G01q_zipdef _ _ _ G2). ring.
 Qed.
 
 (* ------------------------------------------------------------------ refutation witnesses *)
@@ -367,23 +378,19 @@ Proof.
   exists wit_net, [], 1%nat, wit_v, wit_sinj. destruct wit_facts as (H1 & H2 & H3 & _ & H5).
   repeat split; try assumption. rewrite H5. intros E. discriminate E.
 Qed.
-(* a constant-impedance load at the bus of the ext_grid (reference bus), |V| = 21/20 *)
+(* the OLD rule: a constant-impedance load at the bus of the ext_grid (reference bus), |V| = 21/20; with the repaired
+   rule the same bus balances (its single load makes G01p true) *)
 Definition witg_net : net :=
   mkNet [mkLoad 0 0 2 1 1 true 100 0 100 0] [] [] [mkGen 0 0 0 0 0 1 true true] true 1 [(0%nat, 0%nat)].
 Definition witg_v : Q := 21 # 20.
-Lemma witg_facts : forall sinj,
-  split_ok witg_net 0 = true /\ G01p witg_net 0 = true /\ G01gp witg_net 0 = false /\
-  resid_p witg_net [0%nat] 0 witg_v sinj (flows witg_net 0 witg_v sinj) == 41 # 200.
+Lemma old_rule_refuted_gen_bus :
+  G01p witg_net 0 = true /\ G01gp witg_net 0 = false /\
+  (forall sinj, ~ resid_p_ref_old witg_net 0 witg_v sinj == 0) /\
+  (forall sinj, resid_p witg_net [0%nat] 0 witg_v sinj (flows witg_net 0 witg_v sinj) == 0).
 Proof.
-  intros sinj. repeat split; try reflexivity.
-  rewrite imbalance_ref_p by reflexivity. vm_compute. reflexivity.
-Qed.
-Lemma balance_refuted_gen_bus :
-  exists n ref k v, memn k ref = true /\ split_ok n k = true /\ G01p n k = true /\
-    forall sinj, ~ resid_p n ref k v sinj (flows n k v sinj) == 0.
-Proof.
-  exists witg_net, [0%nat], 0%nat, witg_v. repeat split; try reflexivity.
-  intros sinj E. destruct (witg_facts sinj) as (_ & _ & _ & H). rewrite H in E. discriminate E.
+  split; [reflexivity|]. split; [reflexivity|]. split.
+  - intros sinj E. rewrite old_ref_p in E. vm_compute in E. discriminate E.
+  - intros sinj. rewrite imbalance_ref_p by reflexivity. rewrite (G01p_zipdef witg_net 0%nat witg_v) by reflexivity. ring.
 Qed.
 
 (* non-vacuity of the partial theorems: a bus with two ZIP loads of equal fractions, an sgen-free mix *)
@@ -450,11 +457,17 @@ Proof.
 Qed.
 
 (* ------------------------------------------------------------------ DC power flow *)
-Lemma dc_imbalance n k v pinj gsum :
-  dc_resid_p n k v pinj gsum == dc_mism n k pinj gsum + dcdef_p n k v.
+Lemma dc_imbalance_old n k v pinj gsum :
+  dc_resid_p_old n k v pinj gsum == dc_mism n k pinj gsum + dcdef_p n k v.
 Proof.
-  unfold dc_resid_p, dc_mism, dcdef_p, dc_flows, dc_cons_p, PD, GS. qnorm.
+  unfold dc_resid_p_old, dc_mism, dcdef_p, dc_flows, dc_cons_p_old, PD, GS. qnorm.
   rewrite sum_pq_res_p, sum_sh_res_p, sum_load_p0. ring.
+Qed.
+(* repaired: the reported DC consumption balances the DC bus equation exactly *)
+Lemma dc_balance n k pinj gsum : dc_resid_p n k pinj gsum == dc_mism n k pinj gsum.
+Proof.
+  unfold dc_resid_p, dc_cons_p. fold (dc_resid_p_old n k 1 pinj gsum). rewrite dc_imbalance_old.
+  unfold dcdef_p. qnorm. ring.
 Qed.
 Lemma G01dc_dcdef n k v : G01dc n k v = true -> dcdef_p n k v == 0.
 Proof.
@@ -472,10 +485,10 @@ Proof.
   destruct Hz as [Hz|Hz]; [apply H2; lra | apply H1; exact Hz].
 Qed.
 Definition witdc_net : net := mkNet [] [] [mkSh 0 0 (7#8) 0 1 20 20 true] [] false 1 [].
-Lemma dc_refuted : exists n k v pinj gsum, dc_mism n k pinj gsum == 0 /\ ~ dc_resid_p n k v pinj gsum == 0.
+Lemma dc_old_refuted : exists n k v pinj gsum, dc_mism n k pinj gsum == 0 /\ ~ dc_resid_p_old n k v pinj gsum == 0.
 Proof.
   exists witdc_net, 0%nat, (99#100), (-7#8), 0. split; [vm_compute; reflexivity|].
-  rewrite dc_imbalance. vm_compute. intros E. discriminate E.
+  rewrite dc_imbalance_old. vm_compute. intros E. discriminate E.
 Qed.
 
 (* ------------------------------------------------------------------ dcline terminals cancel out of res_bus *)
